@@ -180,7 +180,7 @@ U4_NOTE = ('Trusted: Verus/Z3; the POSIX/std/filetime stand-ins in contracts/pre
            'sequential (solo) filesystem model; extraction transformations T1-T9 checked by token-level erasure on every run. ')
 
 
-def _u4(pid, text, replayer=None, thorough=None, not_covered=(), units=('u5_sharded',), extra_assume=()):
+def _u4(pid, text, replayer=None, thorough=None, not_covered=(), units=('u6_stack',), extra_assume=()):
     PROPS[pid] = {
         'units': list(units),
         'replayer': replayer,
@@ -273,21 +273,39 @@ _u4('C19', 'Proof that CacheDir::get returns a handle with can_write == false on
 _u4('C03', 'Proof that rename/link require `must_sync ==> synced` and `!writable` of the source (publish guarantee) at both publishing sites of raw_cache, that nothing in raw_cache / cache_dir '
     'clears the synced flag, and that chmod/write stubs cannot touch a visible inode.',
     not_covered=['where the flush happens (Cache::maybe_sync_path, finalize_tempfile, promote) is in stack.rs', STACK_NC])
-PROPS['C10']['units'] = ['u2_trigger', 'u5_sharded']
+PROPS['C10']['units'] = ['u2_trigger', 'u6_stack']
 PROPS['C10']['assumptions'] += FS_ASSUMPTIONS
 PROPS['C10']['not_covered'] = []
 PROPS['C10']['level_text'] += (' In the filesystem unit: plain::Cache::new builds the trigger with period capacity/3; CacheDir::maybe_cleanup is exactly one trigger event and runs the whole '
                                 'maintenance iff it fires, with no filesystem call otherwise; set/put call it before their first publishing step (cleanup_frame keeps `published` unchanged).')
 PROPS['C08']['units'] = ['u1_planner']
-PROPS['C12']['units'] = ['u3_hash', 'u5_sharded']
+PROPS['C12']['units'] = ['u3_hash', 'u6_stack']
 PROPS['C12']['assumptions'] += FS_ASSUMPTIONS
 PROPS['C12']['not_covered'] = []
 PROPS['C12']['level_text'] += (' Filesystem level (unit U5): sharded::Cache::new clamps n < 2 to 2; shard(i) is child(root, fmt_shard(i)); get/touch probe the primary candidate first and the '
                                 'secondary only on a miss; set/put create links only under the two candidate entry paths; sort_by_load returns the pair or its swap (estimates merely choose).')
 
+STACK_ASSUME = [
+    'a consistency checker only reads its two files (the handles keep denoting the same inodes and stay read-only) and its verdict is a function of the two files '
+    '(contract of the stand-in ConsistencyChecker::call, which replaces `Arc<dyn Fn(&mut File, &mut File) -> Result<()> + markers>`: T7)',
+    'the generic public shims of ReadOnlyCache / Cache are specialised to `Key` (T11) or dropped (one forwarding call each)',
+    'Cache.consistency_checker and the read side were given the same checker by the builder (not under contract)',
+]
+_u4('C13', 'Unbounded proof, for stacks of any depth: ReadOnlyCache::get/touch return / mark the copy of the first level in registration order that holds one '
+    '(first_copy) and report a miss only if no level holds one; Cache::get::doit / touch::doit consult the write cache first and return / mark its copy when it has one, '
+    'otherwise the read-only result; every returned handle is read-only at offset 0; levels are abstract (trait contracts of ReadSide / FullCache, which the plain and '
+    'sharded implementations are proved to satisfy).',
+    not_covered=['ensure / get_or_update (Accept, Promote, Replace, miss), set/put without a write cache: stack.rs functions not under contract yet'],
+    extra_assume=STACK_ASSUME)
+_u4('C14', 'Unbounded proof, for stacks of any depth: with a checker configured, ReadOnlyCache::get succeeds only if the checker accepted the first copy against every copy held by a later '
+    'level (later_copies_accepted), and Cache::get::doit with a write-side hit only if the checker accepted that hit against the first read-only copy and that copy against every later one; '
+    'a rejected comparison or a failed lookup reaches the caller as Err; without a checker no level after the first hit is consulted (open-attempt bound 2*(idx+1)).',
+    not_covered=['the hit-vs-populate comparison and the NotFound exemption of ensure / get_or_update; checker panics (no catch_unwind exists in the functions under contract; not a contract)'],
+    extra_assume=STACK_ASSUME)
+
 NOT_CLAIMED = {
     'C04': 'linearizability under real interleavings needs interference in the filesystem stubs; the contracts built here are sequential (per-operation atomic steps are visible in C11/C01 evidence)',
-    'C12': None, 'C13': 'stack.rs / readonly.rs are not under contract yet', 'C14': 'stack.rs / readonly.rs are not under contract yet',
+    'C12': None,
 }
 NOT_CLAIMED = {k: v for k, v in NOT_CLAIMED.items() if v}
 
